@@ -28,7 +28,11 @@ def run_mc(defs, workdir, own, max_pause=0, max_cancel=0, max_steps=14, known=()
                 % (max_pause, max_cancel, max_steps, max_rerun, q(own), q(known), "Intended" if intended else "AsCode",
                    ("INVARIANT EmitLeaves\n" if emit else "") + ("INVARIANT BoundNotHit\n" if bound_check else "")))
     try:
-        res = tlc.run("MC", cfg=os.path.basename(cfg), env={"DEFS_FILE": dpath}, workers=workers,
+        res = tlc.run("MC", cfg=os.path.basename(cfg), env={"DEFS_FILE": dpath,
+                                                              # TLC's disk queue cannot write MC's lazily evaluated function values
+                                                              # (FcnLambdaValue under a VIEW): keep the queue in memory
+                                                              "JAVA_TOOL_OPTIONS": "-Dtlc2.tool.queue.IStateQueue=MemStateQueue"},
+                      workers=workers,
                       timeout=timeout, simulate=simulate, seed=seed, workdir=workdir)
     finally:
         os.unlink(cfg)
